@@ -628,6 +628,21 @@ impl<'me> ClaimGuard<'me> {
         *id = SyncOwner::Transferred;
         *claimed_twice = false;
 
+        #[cfg(salsa_rs_salsa_verif)]
+        {
+            let st = syncs
+                .find(hash, |state| state.key == self.key_index)
+                .expect("entry was just updated");
+            crate::verif_proto::record(&[
+                crate::verif_proto::P::S("syncstate"),
+                crate::verif_proto::P::T(thread::current().id()),
+                crate::verif_proto::P::K(self_key),
+                crate::verif_proto::P::B(st.anyone_waiting),
+                crate::verif_proto::P::B(st.is_transfer_target),
+                crate::verif_proto::P::B(st.claimed_twice),
+            ]);
+        }
+
         self.zalsa
             .runtime()
             .transfer_lock(self_key, new_owner, new_owner_thread_id, syncs)
